@@ -119,13 +119,15 @@ func ruleOnePump(c *Ctx, m *multiModel) {
 // doneFields: chan fields D of T closed (close(load T.D)) somewhere in a release closure.
 func doneFields(c *Ctx, m *multiModel) map[string]bool {
 	out := map[string]bool{}
-	for _, fl := range c.P.StructFields(m.T) {
-		if _, ok := fl.Type().Underlying().(*types.Chan); !ok {
-			continue
-		}
-		for _, r := range m.release {
-			if bodyHas(r, closeOfField(c.P, m.T, fl.Name())) {
-				out[fl.Name()] = true
+	for T := range m.holders {
+		for _, fl := range c.P.StructFields(T) {
+			if _, ok := fl.Type().Underlying().(*types.Chan); !ok {
+				continue
+			}
+			for _, r := range m.release {
+				if bodyHas(r, closeOfField(c.P, T, fl.Name())) {
+					out[T+"."+fl.Name()] = true
+				}
 			}
 		}
 	}
@@ -150,7 +152,8 @@ func ruleLastClose(c *Ctx, m *multiModel) {
 			var dn []string
 			for d := range done {
 				dn = append(dn, d)
-				if ok, _ := eng.MustPass(edgePoint(e), closeOfField(p, m.T, d)); ok {
+				i := strings.LastIndex(d, ".")
+				if ok, _ := eng.MustPass(edgePoint(e), closeOfField(p, d[:i], d[i+1:])); ok {
 					sig = true
 				}
 			}
@@ -189,8 +192,8 @@ func ruleLastClose(c *Ctx, m *multiModel) {
 func chanFieldOf(c *Ctx, m *multiModel, pump *ssa.Function, v ssa.Value) string {
 	found := ""
 	for _, o := range c.P.Origins(v, eng.Plain) {
-		if t, f, _, ok := eng.FieldLoad(o); ok && t == m.T {
-			found = f
+		if t, f, _, ok := eng.FieldLoad(o); ok && m.holders[t] {
+			found = t + "." + f
 			continue
 		}
 		if pa, ok := o.(*ssa.Parameter); ok && pa.Parent() == pump {
@@ -201,8 +204,8 @@ func chanFieldOf(c *Ctx, m *multiModel, pump *ssa.Function, v ssa.Value) string 
 				for _, g := range m.goSites {
 					if i < len(g.Call.Args) {
 						for _, oo := range c.P.Origins(g.Call.Args[i], eng.Plain) {
-							if t, f, _, ok := eng.FieldLoad(oo); ok && t == m.T {
-								found = f
+							if t, f, _, ok := eng.FieldLoad(oo); ok && m.holders[t] {
+								found = t + "." + f
 							}
 						}
 					}
